@@ -230,7 +230,7 @@ def _split_case(case):
         ice = LayeredIce([UniformIce(1.5, valid_range=(d, 0), index_above=1.0), UniformIce(1.5, valid_range=(-1000, d), index_below=1.8)],
                          index_above=1.0, index_below=1.8)
         zs = [-30.0, -250.0, -600.0, -900.0] if not case.get("dense") else [-30.0, -150.0, -250.0, -450.0, -600.0, -750.0, -900.0]
-        rhos = [2.0 ** -3, 80.0, 640.0] if not case.get("dense") else [2.0 ** -3, 20.0, 80.0, 250.0, 640.0, 1500.0]
+        rhos = [0.0, 2.0 ** -3, 80.0, 640.0] if not case.get("dense") else [0.0, 2.0 ** -3, 20.0, 80.0, 250.0, 640.0, 1500.0]
         tolL, tolD = 1e-9, 1e-7
     else:
         whole = AntarcticIce()
@@ -244,7 +244,7 @@ def _split_case(case):
     # edge of the range of launch angles for which the layer sequence can be traversed at all
     geoms += [(d + 5.0, d - 6.0, 640.0), (d - 6.0, d + 5.0, 640.0), (d + 2.0, d - 3.0, 320.0), (d - 9.0, d + 4.0, 1024.0)]
     for z0, z1, rho in geoms:
-        if abs(z0 - d) < 1.0 or abs(z1 - d) < 1.0:
+        if abs(z0 - d) < 1.0 or abs(z1 - d) < 1.0 or (rho == 0.0 and z0 == z1):
             continue
         if case["kind"] == "split_antarctic" and rho < 0.3 * abs(z0 - z1):
             continue            # class W only (well-conditioned)
